@@ -67,7 +67,7 @@ def check_text(text, inputs=(), ast=None):
             code = vyxal.transpile.transpile_single(stc, 0)
         except Exception as e:  # noqa: BLE001
             return ("discard", "transpile:" + type(e).__name__)
-        r = harness.exec_py(code, stack, ctx, budget=200_000, wall=20, ns=ns)
+        r = harness.exec_py(code, stack, ctx, budget=40_000, wall=8, ns=ns)
         if r.exc is not None:
             return ("discard", type(r.exc).__name__)
         ns = r.ns
@@ -118,6 +118,11 @@ BODIES = {
     "elif-body-x": [N(0), ["if", [[N(1)], [N(1)], [["rec"]], [N(4)]]]], "second-elif-X": [N(0), ["if", [[N(1)], [N(0)], [N(2)], [N(1)], [["brk"]]]]],
     "final-else-X": [N(0), ["if", [[N(1)], [N(0)], [N(2)], [["brk"]]]]],
     "nested-list-X": [["list", [[N(1), ["brk"]], [N(2)]]]], "mod-X": [N(1), ["mod", "v", [["brk"]]]],
+    # an inner loop (same variable name as the "for-named" wrapper) runs to completion, then the enclosing construct is left early
+    "inner-loop-then-X": [N(2), ["for", "i", []], ["brk"]], "inner-loop-then-x": [N(2), ["for", "i", [N(1), E("_")]], ["rec"]],
+    "inner-loop-then-if-X": [N(2), ["for", "i", [N(1), E("_")]], E("n"), N(2), E("="), ["if", [[["brk"]]]]],
+    "inner-while-then-X": [N(1), ["while", [E(":")], [E("‹")]], E("_"), ["brk"]],
+    "X-in-while-condition": [N(0), ["while", [["brk"]], [N(1)]]], "x-guarded-in-while-condition": [N(0), ["while", [E(":"), N(3), E("="), ["if", [[["brk"]]]], N(1)], [E("›")]]],
 }
 WRAPS = {
     "for": lambda b: [N(2), ["for", None, b]], "for-named": lambda b: [N(2), ["for", "i", b]],
